@@ -183,6 +183,8 @@ def runNumeric (lines : List String) : IO Unit := do
       | some t => a := { a with curTerms := a.curTerms ++ [t] }
       | none => pure ()
     | "o" :: "poly" :: rest =>
+      if lastCmd.headD "" == "hshift" then
+        a := { a with s := { a.s with ham := readPolyC rest } }
       if lastCmd == ["ham"] then
         a := { a with s := { a.s with ham := readPolyC rest } }
         if a.s.M ≤ 6 && a.idxTable.length == a.s.M && !a.curSites.isEmpty then
@@ -521,20 +523,26 @@ def runNumeric (lines : List String) : IO Unit := do
       let s := a.s; let w := specWeights s
       let A := rotate s (opFock s "quad" (nat! p) (nat! q))
       let B := rotate s (opFock s "quad" (nat! r) (nat! t))
-      let (x, amb, tot) := specSusc s w A B (int! n)
+      let sp := specSusc s w A B (int! n)
+      let x := sp.x
       let v0 := parseC r0 i0; let v1 := parseC r1 i1; let v2 := parseC r2 i2; let v3 := parseC r3 i3
       a := a.bump "susc_values"
       let omega := 2.0 * Float.ofInt (int! n) * pi / s.beta
       a ← truncCheck a "C19" s!"susc {p} {q} {r} {t} {n}" s!"chi_AB(n={n})" [v0]
              (if int! n == 0 then s.beta * s.truncEps * Float.ofNat s.dim else 2.0 * s.truncEps * Float.ofNat s.dim / Float.abs omega)
       a := remember a s!"susc {p} {q} {r} {t} {n}" [v0]
-      if amb then a := { a with ambiguous := a.ambiguous + 1 }
-      else if !a.truncated then
-        -- dropped residues below the documented tolerance are allowed, but only while their total stays at the
-        -- level of numerical precision (otherwise the static limit is genuinely wrong)
-        let dropped := suscDroppedBudget s w A B (int! n)
-        if !closeC v0 x (1.0e-8 * (1.0 + tot) + (if dropped < 1.0e-6 * (1.0 + tot) then dropped else 1.0e-6 * (1.0 + tot))) then
-          a ← fail a "C14" s!"chi_({p}{q})({r}{t})(iW_{n}) = ({v0.re},{v0.im}) differs from the definition ({x.re},{x.im}) by {(v0 - x).abs}"
+      if sp.unsure > 0.0 then a := { a with ambiguous := a.ambiguous + 1 }
+      if !a.truncated then
+        -- terms below the documented residue tolerance may be dropped, but only while their total stays at the
+        -- level of numerical precision (otherwise the value is genuinely wrong); a deviation that is explained by
+        -- exactly those terms is attributed to the residue filter of SusceptibilityPart::compute
+        let tol := 1.0e-8 * (1.0 + sp.tot) + sp.ideal + sp.unsure
+        let small := 1.0e-6 * (1.0 + sp.tot)
+        if !closeC v0 x (tol + (if sp.filtered.abs < small then sp.filtered.abs else 0.0)) then
+          if closeC v0 (x - sp.filtered) tol then
+            a ← fail a "C14" s!"residue filter drops {sp.filtered.abs} of chi_({p}{q})({r}{t})(iW_{n}): returned ({v0.re},{v0.im}), definition ({x.re},{x.im})"
+          else
+            a ← fail a "C14" s!"chi_({p}{q})({r}{t})(iW_{n}) = ({v0.re},{v0.im}) differs from the definition ({x.re},{x.im}) by {(v0 - x).abs}"
         -- disconnected part: beta <A><B> at n = 0 only, the same for the three ways of supplying the averages
         let aA := traceWeighted w A; let aB := traceWeighted w B
         let d := if int! n == 0 then aA * aB * ofR s.beta else czero
@@ -545,12 +553,18 @@ def runNumeric (lines : List String) : IO Unit := do
       let s := a.s; let w := specWeights s
       let A := rotate s (opFock s "quad" (nat! p) (nat! q))
       let B := rotate s (opFock s "quad" (nat! r) (nat! t))
-      let x := specSuscTau s w A B (fOf tau)
+      let sp := specSuscTau s w A B (fOf tau)
+      let x := sp.x
       let v0 := parseC r0 i0; let v1 := parseC r1 i1
       a := a.bump "susc_tau_values"
       if !a.truncated then
-        if !closeC v0 x 1.0e-7 then
-          a ← fail a "C14" s!"chi_AB(tau={fOf tau}) = ({v0.re},{v0.im}) differs from <A(tau)B> = ({x.re},{x.im})"
+        let tol := 1.0e-8 * (1.0 + sp.tot) + sp.ideal + sp.unsure
+        let small := 1.0e-6 * (1.0 + sp.tot)
+        if !closeC v0 x (tol + (if sp.filtered.abs < small then sp.filtered.abs else 0.0)) then
+          if closeC v0 (x - sp.filtered) tol then
+            a ← fail a "C14" s!"residue filter drops {sp.filtered.abs} of chi_AB(tau={fOf tau}): returned ({v0.re},{v0.im}), <A(tau)B> = ({x.re},{x.im})"
+          else
+            a ← fail a "C14" s!"chi_AB(tau={fOf tau}) = ({v0.re},{v0.im}) differs from <A(tau)B> = ({x.re},{x.im})"
         let aA := traceWeighted w A; let aB := traceWeighted w B
         if !closeC (v0 - v1) (aA * aB) 1.0e-9 then
           a ← fail a "C14" s!"tau-domain subtraction differs from <A><B>"
